@@ -3,6 +3,7 @@ package props
 // C05: reported fields are contained, nested and ordered like the text they describe.
 
 import (
+	"bytes"
 	"fmt"
 
 	"github.com/intuitivelabs/sipsp"
@@ -16,6 +17,7 @@ type CaseContain struct {
 	Flags uint   `json:"flags"`
 	Sched []int  `json:"sched"`
 	Class string `json:"class,omitempty"`
+	HCap  int    `json:"hcap"` // 0 = ample header array; > 0: this (possibly too small) capacity, -1: zero-length array
 }
 
 type span struct{ a, b int } // [a,b)
@@ -77,6 +79,11 @@ func evalContain(cs CaseContain) Result {
 		return Result{Skip: true}
 	}
 	cfg := Cfg{Kind: KMsg, Flags: cs.Flags &^ uint(sipsp.SIPMsgNoMoreDataF), HdrCap: 80, CtCap: 40, PCap: -1}
+	if cs.HCap > 0 {
+		cfg.HdrCap = cs.HCap
+	} else if cs.HCap < 0 {
+		cfg.HdrCap = 0
+	}
 	st := NewStepper(cfg)
 	sched := normSchedule(cs.Sched, len(cs.Buf))
 	o := start
@@ -109,7 +116,35 @@ func evalContain(cs CaseContain) Result {
 	}
 	hl := &m.HL
 	if hl.N > len(hl.Hdrs) || hl.N == 0 {
-		return ok(false, append(classes, "hdrs-do-not-fit")...)
+		// not all headers are stored: the first-of-type shortcuts are the only view on the others;
+		// each must describe one line: name, then (same line or folded) its own value
+		for t := sipsp.HdrFrom; t < sipsp.HdrOther; t++ {
+			h := hl.GetHdr(t)
+			if h == nil || h.Missing() {
+				continue
+			}
+			n := sp(h.Name)
+			if h.Name.Empty() || !n.inside(consumed) {
+				return fail("GetHdr(%v): name %v outside the message", t, n)
+			}
+			if refHdrType(h.Name.Get(buf)) != t {
+				return fail("GetHdr(%v) holds the header %q", t, h.Name.Get(buf))
+			}
+			if h.Val.Empty() {
+				continue
+			}
+			v := sp(h.Val)
+			if v.a < n.b || !v.inside(consumed) {
+				return fail("GetHdr(%v): value %v does not follow its name %v", t, v, n)
+			}
+			// between the name and the value: WS* ':' LWS*  (a value on another header's line would have a line end + name in between)
+			gap := buf[n.b:v.a]
+			colon := bytes.IndexByte(gap, ':')
+			if colon < 0 || !onlyBytes(gap[:colon], " \t") || (wellFormed && !onlyBytes(gap[colon+1:], " \t\r\n")) {
+				return fail("GetHdr(%v) (%q): the reported value %q is not the value of that header line (text in between: %q)", t, h.Name.Get(buf), h.Val.Get(buf), gap)
+			}
+		}
+		return ok(hl.N >= 3, append(classes, "hdrs-do-not-fit")...)
 	}
 	// first line
 	fl := &m.FL
@@ -356,6 +391,9 @@ var C05Contain = Register(&Check[CaseContain]{
 		cs.Pre = genJunkPrefix(t)
 		if rapid.Bool().Draw(t, "chunked") {
 			cs.Sched = genSchedule(t, len(cs.Buf), hotPositions(cs.Buf))
+		}
+		if rapid.IntRange(0, 3).Draw(t, "smallcap") == 0 {
+			cs.HCap = pick(t, "hcap", -1, 1, 2, 3, 5)
 		}
 		return cs
 	},
